@@ -55,3 +55,22 @@ Definition dilated_decision (ih iw oh ow kh kw bh bw pt pl ct cl : Z) : Z :=
 (* leading padding Vela gives a stride-1 convolution with dilated kernel extent span + 1 over n samples
    (needed_total_padding / calc_padding_and_skirt): SAME pads span in total, the smaller half in front *)
 Definition vela_lead_pad (mode span : Z) : Z := if mode =? 1 then span / 2 else 0.
+
+(* ---------- fixup_dilation_gt2: a dilation the hardware does not have, realised by a wider kernel ---------- *)
+(* the hardware dilates by 1 or 2; for a dilation d > 2 Vela keeps hw = 1 (d odd) or 2 (d even) and spreads the k
+   filter taps over (k - 1) * r + 1 positions, r = d / hw, filling the positions in between with the weights' zero point *)
+Definition hw_dilation (d : Z) : Z := if Z.odd d then 1 else 2.
+Definition kernel_spread (d : Z) : Z := d / hw_dilation d.
+Definition widened_len (k r : nat) : nat := ((k - 1) * r + 1)%nat.
+Definition widened (r : nat) (w : nat -> Z) (fill : Z) (j : nat) : Z :=
+  if (j mod r =? 0)%nat then w (j / r)%nat else fill.
+(* one axis of the new kernel as a list (what the code writes into the weight tensor) *)
+Definition widened_list (k r : nat) (w : list Z) (fill : Z) : list Z :=
+  map (widened r (fun j => nth j w 0) fill) (seq 0 (widened_len k r)).
+
+(* both axes of one (input channel, output channel) plane of the kernel *)
+Definition widened2 (kh kw rh rw : nat) (w : list (list Z)) (fill : Z) : list (list Z) :=
+  map (fun h' => map (fun w' => if ((h' mod rh =? 0) && (w' mod rw =? 0))%nat
+                                then nth (w' / rw)%nat (nth (h' / rh)%nat w []) 0 else fill)
+                     (seq 0 (widened_len kw rw)))
+      (seq 0 (widened_len kh rh)).
